@@ -50,7 +50,7 @@ def run(ctx: core.Ctx):
                    label="a second connection with its own traffic alive in the same process (monitor only, first connection judged)", accept=False)
     b2check.run_b2(ctx, jobs_api, MONS, label="YncaApi.send_raw after initialize(), monitor only", accept=False)
     T = core.tables()
-    b2check.run_b2(ctx, lambda rng, th: [(gen.api_typed_two(rng, T), rng.randrange(10 ** 9), 0) for _ in range(2000 if th else 40)], ["C01api2"],
+    b2check.run_b2(ctx, lambda rng, th: [(gen.api_typed_two(rng, T), rng.randrange(10 ** 9), 0) for _ in range(600 if th else 40)], ["C01api2"],
                    label="typed attribute writes of one YncaApi object while another YncaApi object (another receiver) is alive in the same process, monitor only", accept=False)
     ctx.info["rule"] = ("sessions of 1..4 callers with bursts of unique commands and idle gaps around the keep-alive interval; each under a seeded schedule with extra line-level preemptions; a case = one schedule; "
                         "non-trivial = distinct (spec, seed)")
